@@ -238,7 +238,7 @@ type asmSingle struct {
 }
 
 type asmSpec struct {
-	ca       int // issuer whose name/key hashes go into the CertIDs
+	ca       int // issuer whose name/key hashes go into the CertIDs (entity index, see entAt)
 	signer   *ent
 	sigHash  int
 	status   int  // OCSPResponseStatus
@@ -260,12 +260,12 @@ type asmSpec struct {
 func utc(sec int64) time.Time { return time.Unix(sec, 0).UTC() }
 
 func buildTBS(sp *asmSpec, allGood bool) []byte {
-	ca := pool()[sp.ca]
+	ca := entAt(sp.ca)
 	var rs []mSingle
 	for _, s := range sp.singles {
 		m := mSingle{CertID: mCertID{
 			HashAlgorithm: pkix.AlgorithmIdentifier{Algorithm: hashOID(s.hash), Parameters: nullParams},
-			NameHash:      refHash(hashOr1(s.hash), ca.std.RawSubject),
+			NameHash:      refHash(hashOr1(s.hash), ca.subj),
 			IssuerKeyHash: refHash(hashOr1(s.hash), spkiBits(ca.std)),
 			SerialNumber:  s.serial},
 			ThisUpdate: utc(s.this)}
@@ -297,7 +297,7 @@ func buildTBS(sp *asmSpec, allGood bool) []byte {
 		b, _ := asn1.Marshal(kh[:])
 		rid.Bytes = b
 	default:
-		rid.Bytes = sp.signer.std.RawSubject
+		rid.Bytes = sp.signer.subj
 	}
 	tbs, err := asn1.Marshal(mResponseData{RawResponderID: rid, ProducedAt: utc(sp.produced), Responses: rs})
 	if err != nil {
@@ -384,6 +384,7 @@ type abstract struct {
 	alg                                 asn1.ObjectIdentifier
 	cert0                               []byte
 	nameHashes, keyHashes               [][]byte
+	rid                                 []byte // content of the responder id CHOICE arm as it stands in the DER
 }
 
 func decodeAbs(der []byte, issuer *ent) (a abstract) {
@@ -422,6 +423,7 @@ func decodeAbs(der []byte, issuer *ent) (a abstract) {
 	}
 	rid := b.TBSResponseData.RawResponderID
 	a.rtag = rid.Tag
+	a.rid = rid.Bytes
 	switch rid.Tag {
 	case 1:
 		var rdn pkix.RDNSequence
